@@ -1,9 +1,11 @@
 package props
 
 import (
+	"context"
 	"errors"
 	"fmt"
 	"io"
+	"io/fs"
 	"os"
 	"runtime"
 	"sort"
@@ -25,9 +27,43 @@ import (
 var errStoreInjected = errors.New("injected store failure")
 
 type c14case struct {
-	Shape string `json:"shape"` // plain | txn
+	Shape string `json:"shape"` // plain | txn | plain-cached | txn-deferred
 	Src   string `json:"src"`   // c01 | c02 | random
 	Index int    `json:"index"`
+	// Flavour: which error value the failing store call reports (0 = the harness's own sentinel)
+	Flavour int `json:"flavour,omitempty"`
+}
+
+// c14flavours: error values real stores fail with. What the file system must do does not depend on WHICH error a failing
+// call reports - with one exception the interface itself defines: a Get that answers "does not exist" says the record is
+// absent, so that value is only used where a record that WAS found fails to deliver its contents. Three values are left
+// out because the library's interfaces give them a meaning of their own: ErrNotImplemented ("try another way": the
+// RemoveAll helper then removes entry by entry), ErrExist (MkdirAll and NewFS take it for "already there") and
+// ErrNotExist from a listing (RemoveAll takes it for "nothing to remove").
+var c14flavours = []struct {
+	name  string
+	err   error
+	sites string // "" = every site
+}{
+	{"sentinel", errStoreInjected, ""},
+	{"wraps-context-canceled", fmt.Errorf("store request: %w", context.Canceled), ""},
+	{"wraps-not-exist", fmt.Errorf("NoSuchKey: %w", fs.ErrNotExist), "Data"},
+	{"unexpected-eof", io.ErrUnexpectedEOF, ""},
+	{"wraps-deadline", fmt.Errorf("store request: %w", context.DeadlineExceeded), ""},
+	{"wraps-closed", fmt.Errorf("connection: %w", fs.ErrClosed), ""},
+	{"wraps-permission", fmt.Errorf("denied: %w", fs.ErrPermission), ""},
+	{"wraps-eof", fmt.Errorf("body: %w", io.EOF), "Set,Commit,Transaction,Data,ReadDirNames"},
+}
+
+// c14flavour is the flavour of the case being run (cases run one after the other in a child process).
+var c14flavour int
+
+func c14flavourErr(site string) error {
+	f := c14flavours[c14flavour%len(c14flavours)]
+	if f.sites != "" && !strings.Contains(","+f.sites+",", ","+site+",") {
+		return errStoreInjected
+	}
+	return f.err
 }
 
 func c14cases(env *core.Env) []c14case {
@@ -39,33 +75,64 @@ func c14cases(env *core.Env) []c14case {
 		for i := 0; i < len(c01matrix); i++ {
 			// every removal and rename case (a swallowed store error there loses data), a stride of the rest
 			if n := c01matrix[i].Name; i%stride1 == 0 || strings.HasPrefix(n, "Remove") || strings.HasPrefix(n, "Rename") {
-				cs = append(cs, c14case{shape, "c01", i})
+				cs = append(cs, c14case{Shape: shape, Src: "c01", Index: i})
 			}
 		}
 		for i := 0; i < len(c02matrix); i += stride2 {
 			if c02matrix[i].Subject == "mem" {
-				cs = append(cs, c14case{shape, "c02", i})
+				cs = append(cs, c14case{Shape: shape, Src: "c02", Index: i})
 			}
 		}
 		for i := range c14directed {
-			cs = append(cs, c14case{shape, "directed", i})
+			cs = append(cs, c14case{Shape: shape, Src: "directed", Index: i})
 		}
 		for i := 0; i < env.Pick(200, 20000); i++ {
-			cs = append(cs, c14case{shape, "random", i})
+			cs = append(cs, c14case{Shape: shape, Src: "random", Index: i})
 		}
 	}
 	// a plain store that hands out the same record object for repeated look-ups of a path (handle histories: several
 	// handles then share one record, whose lazy loaders every one of them runs)
 	for i := 0; i < len(c02matrix); i += stride2 {
 		if c02matrix[i].Subject == "mem" {
-			cs = append(cs, c14case{"plain-cached", "c02", i})
+			cs = append(cs, c14case{Shape: "plain-cached", Src: "c02", Index: i})
 		}
 	}
 	for i := range c14directed {
-		cs = append(cs, c14case{"plain-cached", "directed", i})
+		cs = append(cs, c14case{Shape: "plain-cached", Src: "directed", Index: i})
 	}
 	for i := 0; i < env.Pick(100, 6000); i++ {
-		cs = append(cs, c14case{"plain-cached", "random", i})
+		cs = append(cs, c14case{Shape: "plain-cached", Src: "random", Index: i})
+	}
+	// a store that applies a transaction at Commit and reports a rejected call only there (see kvs.Txn.Deferred)
+	for i := 0; i < len(c01matrix); i++ {
+		if n := c01matrix[i].Name; i%(stride1*2) == 0 || strings.HasPrefix(n, "Remove") || strings.HasPrefix(n, "Rename") {
+			cs = append(cs, c14case{Shape: "txn-deferred", Src: "c01", Index: i})
+		}
+	}
+	for i := 0; i < len(c02matrix); i += stride2 * 2 {
+		if c02matrix[i].Subject == "mem" {
+			cs = append(cs, c14case{Shape: "txn-deferred", Src: "c02", Index: i})
+		}
+	}
+	for i := range c14directed {
+		cs = append(cs, c14case{Shape: "txn-deferred", Src: "directed", Index: i})
+	}
+	for i := 0; i < env.Pick(100, 6000); i++ {
+		cs = append(cs, c14case{Shape: "txn-deferred", Src: "random", Index: i})
+	}
+	// the same enumeration with the failing call reporting other error values
+	for fl := 1; fl < len(c14flavours); fl++ {
+		for _, shape := range []string{"plain", "txn"} {
+			for i := range c14directed {
+				cs = append(cs, c14case{Shape: shape, Src: "directed", Index: i, Flavour: fl})
+			}
+			for i := fl; i < len(c01matrix); i += stride1 * 12 {
+				cs = append(cs, c14case{Shape: shape, Src: "c01", Index: i, Flavour: fl})
+			}
+			for i := 0; i < env.Pick(25, 1500); i++ {
+				cs = append(cs, c14case{Shape: shape, Src: "random", Index: i, Flavour: fl})
+			}
+		}
 	}
 	return cs
 }
@@ -106,7 +173,7 @@ func (h *c14hook) hook(ev kvs.Event) error {
 	h.n++
 	if idx == h.failAt {
 		h.fired, h.firedAt, h.site = true, h.step, ev.Op
-		return errStoreInjected
+		return c14flavourErr(ev.Op)
 	}
 	return nil
 }
@@ -138,6 +205,7 @@ func newC14World(shape string, failAt int) (*c14world, error) {
 	default:
 		inner := mem.NewStoreVerif()
 		wr := kvs.WrapTxn(inner, nil)
+		wr.Deferred = shape == "txn-deferred"
 		k, err := keyvalue.NewFS(wr)
 		if err != nil {
 			return nil, err
@@ -343,6 +411,7 @@ func c14truncateAfterRejectedSave(cs c14case, steps []fsx.Step, at, k int, site 
 func c14run(env *core.Env, idx int) core.CaseResult {
 	cs := c14cases(env)[idx]
 	var res core.CaseResult
+	c14flavour = cs.Flavour
 	steps := c14history(env, cs)
 	clean, err := newC14World(cs.Shape, -1)
 	if err != nil {
